@@ -2,12 +2,15 @@
    Any number of callers share one client.  A caller performs its calls one after the other:
      Do f        = [ acquire mu ; write the request frame f byte by byte ; read one reply ; release mu ]
                    (Client.Do / SerialClient.Do: c.mu.Lock ... c.do: conn.Write, conn.Read loop ... Unlock)
-     Close/Connect = [ acquire mu ; touch conn ; release mu ]     (Client.Close, Client.Connect)
+     Close/Connect = [ acquire mu ; the transport call: conn.Close() resp. dial + assign conn ;
+                       release mu ]            (Client.Close, Client.Connect, SerialClient.Close)
    Every step of the list is a separate atomic action, so a schedule may preempt a caller between
    any two bytes of its frame.  The transport sees one byte stream ([wire]); it splits the stream
    into requests with [decode] and answers them in arrival order with [reply_of]; a read takes the
    next unread reply.  Acquiring is enabled only when the mutex is free; nothing else is
-   restricted (writes, reads and releases are NOT guarded by the semantics).
+   restricted (writes, reads, the transport call of Close/Connect [ATouch] and releases are NOT
+   guarded by the semantics: that they are made by the holder only is a theorem,
+   ClientConcProofs.steps_by_holder / only_holder_steps).
    Definitions only; the theorems are in proofs/ClientConcProofs.v. *)
 Require Import MB.LockModel.
 From Coq Require Import List NArith Bool Arith.
@@ -36,6 +39,7 @@ Record cst := {
   reads : nat                                   (* how many replies have been taken *)
 }.
 
+(* the transport calls are AWrite, ARead and ATouch (= conn.Close() / the dial of Connect) *)
 Inductive action := AAcq (c : call) | AWrite (b : N) | ARead (r : option frm) | ATouch | ARel.
 
 Definition set_caller (f : nat -> caller) (i : nat) (c : caller) : nat -> caller :=
